@@ -81,6 +81,8 @@ type peerSpec struct {
 	stopOn   string // "", "OnOpen", "OnTraffic", "OnClose": this connection's callback returns Shutdown
 	flood    bool   // the loop is held inside the first OnTraffic until the asynchronous writers have issued everything
 	recSize  int    // record size of the "record" consumption policy (0: 2..4 by seed)
+	openHold int    // milliseconds OnOpen keeps the loop busy (the peer's data and its FIN pile up meanwhile)
+	budget   int    // bytes of big reply frames (0: by socket buffer size and reader speed)
 	// runtime
 	delivered int64 // bytes the handler has been given (for lock-step peers)
 	laddr     string
@@ -237,6 +239,9 @@ func (h *vhandler) OnOpen(c Conn) (out []byte, action Action) {
 			h.asyncWG.Add(1)
 			go h.waker(vc)
 		}
+	}
+	if sp.openHold > 0 {
+		time.Sleep(time.Duration(sp.openHold) * time.Millisecond)
 	}
 	if sp.closeAt == 0 && sp.closeHow == "action" {
 		h.rec.emit("CloseReq", "c", sp.id, "how", "action-onopen")
@@ -711,12 +716,18 @@ func (h *vhandler) writeOps(vc *vconn, c Conn) {
 			body := []int{0, 1, 100, 1000, 4084, 10000}[vc.rng.Intn(6)]
 			budget := 3 << 20
 			if h.cfg.sndbuf > 0 || sp.peerRead != "normal" {
-				budget = 200 << 10 // tiny socket buffers make loopback TCP crawl
+				budget = 60 << 10 // tiny socket buffers make loopback TCP crawl (about 40 KB/s): one big frame is plenty
+			}
+			if sp.budget > 0 {
+				budget = sp.budget
 			}
 			if sp.reply == "big" && vc.outBytes < budget {
 				body = []int{65536, 70000, 200000, 1 << 20}[vc.rng.Intn(4)]
 				if budget < 1<<20 {
 					body = []int{65536, 70000}[vc.rng.Intn(2)]
+				}
+				if sp.budget > 0 && vc.outBytes == 0 {
+					body = sp.budget // more than the socket buffers take while the peer is not reading: a backlog for certain
 				}
 			}
 			if vc.outBytes > 2*budget {
